@@ -97,6 +97,11 @@ func freshValue(v ssa.Value, depth int) bool {
 		}
 		return true
 	case *ssa.Extract:
+		if call, ok := x.Tuple.(*ssa.Call); ok {
+			if calleeReturnsFresh(call, x.Index, depth) {
+				return true
+			}
+		}
 		return freshValue(x.Tuple, depth+1)
 	case *ssa.UnOp:
 		// load of a local variable cell: fresh iff every definition reaching the load is fresh
@@ -134,6 +139,9 @@ func freshValue(v ssa.Value, depth int) bool {
 		}
 		// point operations return new points
 		if o.Name() == "Evaluate" || o.Name() == "Constant" || o.Name() == "Mod" || o.Name() == "Dec" {
+			return true
+		}
+		if calleeReturnsFresh(x, 0, depth) {
 			return true
 		}
 	}
@@ -672,4 +680,28 @@ func reachingStores(ld *ssa.UnOp) (defs []*ssa.Store, fromEntry bool) {
 	}
 	walk(ld.Block())
 	return defs, fromEntry
+}
+
+// calleeReturnsFresh: the call's static callee is a function of the module all of whose returns yield, at result
+// position idx, an object created inside the callee.
+func calleeReturnsFresh(call *ssa.Call, idx int, depth int) bool {
+	f := call.Call.StaticCallee()
+	if f == nil || f.Pkg == nil || !strings.HasPrefix(f.Pkg.Pkg.Path(), modPath) || len(f.Blocks) == 0 || depth > 6 {
+		return false
+	}
+	n := 0
+	for _, ret := range returnsOf(f) {
+		if idx >= len(ret.Results) {
+			return false
+		}
+		v := ret.Results[idx]
+		if isNilConst(v) {
+			continue // error paths
+		}
+		n++
+		if !freshValue(v, depth+3) {
+			return false
+		}
+	}
+	return n > 0
 }
